@@ -5,6 +5,7 @@ operating with them.
 __docformat__ = 'plaintext'
 
 import functools
+import numbers
 
 import re
 
@@ -396,6 +397,8 @@ class MPContext(BaseMPContext, StandardBaseContext):
             if not p:
                 return True
             return q == 1 and p <= 0
+        if isinstance(x, numbers.Rational): # e.g. Fraction: exactly
+            return x.denominator == 1 and x.numerator <= 0
         return ctx.isnpint(ctx.convert(x))
 
     def __str__(ctx):
@@ -1177,6 +1180,8 @@ maxterms, or set zeroprec."""
                 im_dist = ctx.ninf
             else:
                 raise ValueError("requires a finite number")
+        elif isinstance(x, numbers.Rational): # e.g. Fraction: exactly
+            return ctx.nint_distance(rational.mpq(x.numerator, x.denominator))
         else:
             x = ctx.convert(x)
             if hasattr(x, "_mpf_") or hasattr(x, "_mpc_"):
